@@ -54,6 +54,8 @@ EqualsExpectIn(vv, a, b) ==
         ELSE IF vv[a] = <<"Double", "NaN">> \/ vv[b] = <<"Double", "NaN">> THEN "no"        \* NaN equals nothing, itself included
         \* the two zeros of a floating-point type: whether they count as equal is left open
         ELSE IF vv[a][1] = vv[b][1] /\ vv[a][1] \in {"Float", "Double"} /\ {vv[a][2], vv[b][2]} = {"0", "-0"} THEN "either"
+        \* the same number held in two numeric types: whether such variants count as equal is left open
+        ELSE IF vv[a][1] # vv[b][1] /\ vv[a][2] = vv[b][2] /\ {vv[a][1], vv[b][1]} \subseteq {"Integer", "Long", "Float", "Double"} THEN "either"
         ELSE IF vv[a] = vv[b] THEN "yes" ELSE "no")
   ELSE IF vv[a][1] # vv[b][1] THEN "no"
   ELSE IF vv[a][2] = vv[b][2] THEN "yes"
